@@ -451,8 +451,14 @@ vfps::HDF5File::readPhaseSpace( std::string fname
     H5::DataSpace ps_space(ps_dataset.getSpace());
 
     auto rank = ps_space.getSimpleExtentNdims();
+    if (rank != 3 && rank != 4) {
+        throw HDF5FileException("Unexpected rank of phase space data.");
+    }
     std::vector<hsize_t> ps_dims(rank);
     ps_space.getSimpleExtentDims( ps_dims.data(), nullptr );
+    if (ps_dims[0] == 0) {
+        throw HDF5FileException("No phase space saved in file.");
+    }
 
     std::vector<hsize_t> ps_offset;
     std::vector<hsize_t> ps_ext;
@@ -471,6 +477,11 @@ vfps::HDF5File::readPhaseSpace( std::string fname
         ps_offset =  {{static_cast<hsize_t>(use_step),0,0,0}};
         ps_ext = {{1,nBunches,ps_size,ps_size}};
         break;
+    }
+    // the mesh needs at least two points per axis,
+    // and the total number of mesh cells has to fit meshindex_t
+    if (ps_size < 2 || ps_size > 65535) {
+        throw HDF5FileException("Unexpected data size.");
     }
     H5::DataSpace memspace(rank,ps_ext.data(),nullptr);
     ps_space.selectHyperslab(H5S_SELECT_SET, ps_ext.data(), ps_offset.data());
